@@ -44,7 +44,52 @@ def _builtin_format(obj, format_spec=""):
 _orig_format = builtins.format
 
 
+_real_bit_length = SymbolicInt.bit_length
+
+
+def _bit_length(self):
+    """Case-split: the symbolic result of bit_length() is realised (finitely many values), so that
+    float arithmetic on it (ceil(n / 8)) runs on concrete numbers.  Sound: every value is explored."""
+    from crosshair.core import realize
+
+    return realize(_real_bit_length(self))
+
+
+_real_to_bytes = SymbolicInt.to_bytes
+
+
+def _to_bytes(self, length=1, byteorder="big", *, signed=False):
+    """Relational model of int.to_bytes for unsigned values: fresh byte variables b_i in 0..255 with
+    sum(b_i * 256**k) == x are introduced instead of CrossHair's div/mod chain.  The decomposition exists and is
+    unique whenever the range check passes, so the added constraint neither removes nor adds behaviours;
+    it keeps the path condition in linear integer arithmetic (DESIGN.md E2 lesson)."""
+    import z3
+    from crosshair.core import realize
+    from crosshair.libimpl.builtinslib import SymbolicBytes
+    from crosshair.statespace import context_statespace
+
+    if signed or not isinstance(length, int) or not isinstance(byteorder, str):
+        return _real_to_bytes(self, length, byteorder, signed=signed)
+    length = realize(length)
+    byteorder = realize(byteorder)
+    if length < 2 or byteorder not in ("big", "little"):
+        return _real_to_bytes(self, length, byteorder, signed=signed)
+    if self < 0 or self >= 256**length:
+        raise OverflowError
+    with NoTracing():
+        space = context_statespace()
+        vs = [z3.Int("tb" + space.uniq()) for _ in range(length)]
+        total = z3.Sum([v * (256 ** (length - 1 - i)) for i, v in enumerate(vs)])
+        space.add(z3.And(*[z3.And(v >= 0, v <= 255) for v in vs], total == self.var))
+        arr = [SymbolicInt(v) for v in vs]
+        if byteorder == "little":
+            arr.reverse()
+        return SymbolicBytes(arr)
+
+
 def install() -> None:
+    SymbolicInt.bit_length = _bit_length
+    SymbolicInt.to_bytes = _to_bytes
     _cc._PATCH_REGISTRATIONS[builtins.hex] = _hex
     _cc._PATCH_REGISTRATIONS[builtins.format] = _builtin_format
     SymbolicInt.__format__ = _format
